@@ -14,6 +14,14 @@ TEXT = {
          "Rocq proof: length bookkeeping of serialisation op sequences + sink refinement; correspondence on constructed components"),
  "C13": ("Theorems C13_rice_optimal / C13_table_merge_exact / C13_finest_order: for every residual, warm-up and maximum parameter, the order and parameters returned by the finder model minimise the exact coded size over every partition order of the search space and every admissible parameter vector whenever some candidate is below 2^28-1 bits, and the reported bit count is then exact; proved by induction over the bottom-up merge (tables are exactly min(cost, 2^28-1) and merge = table of the concatenation). Tied by the RICE stream (find + table operations) and a brute-force optimum computed independently on the implementation's answers.",
          "Rocq proof: optimality of the bottom-up partition search by induction, saturation algebra; unit correspondence + brute-force oracle"),
+ "C01": ("Theorems C01_subframe_lossless / C01_frame_lossless (+ zigzag, fixed predictors, mid/side): for every block, every estimator behaviour and every choice the encoder model can make (constant, verbatim, fixed order 0..4 under either order selection, quantised LPC; independent, left/side, right/side, mid/side), the RFC 9639 reconstruction from the emitted component fields yields exactly the input channels; the LPC branch under the named, measured hypothesis lpc_fits. PARTIAL: that the emitted bytes parse to these fields is decided on every run by executing the extracted independent decoder (Model/Flac.v) on the implementation's bytes and comparing with the input. Tied by whole-stream byte correspondence (ENC, DLV incl. multi-thread).",
+         "Rocq proof of the component-level inverse (predictors, Rice residuals, stereo) over the encoder model with oracle estimators; extracted independent decoder on emitted bytes; whole-stream correspondence"),
+ "C02": ("Theorems C02_block_size_codes / C02_sample_rate_codes / C02_number_roundtrip / C02_number_defined: every block length 1..=32767 and sample rate 1..=96000 (complete sweeps inside Coq over the implementation's own tables, regenerated each run) gets a non-reserved code whose RFC meaning is the value; the UTF-8-like number coding is RFC-decodable and canonical for every value below 2^36 (arithmetic proof, all seven length classes). Whole-stream clauses (sync, reserved bits, CRC-8/16, zero padding, subframe limits, frame numbering, STREAMINFO consistency, no trailing bytes) are decided per run by the extracted strict validator Flac.strict_ok on the implementation's bytes.",
+         "Rocq proof: exhaustive vm_compute sweeps of finite code spaces lifted to universal statements + arithmetic proof for number coding; extracted strict validator on emitted bytes"),
+ "C03": ("Theorems C03_streaminfo_true / C03_md5_split_independent: the STREAMINFO of the stream encoder model states rate, channels, width, total = samples/channels and md5 = md5(LE bytes of the byte-rounded width), for an arbitrary md5 function, and the digest input is independent of how the samples are split into blocks. Tied by ENC and DLV (integer vs byte fill, with/without length hint, 1..16 worker threads) with an oracle that recomputes count and MD5 from the raw input.",
+         "Rocq proof over the stream model (MD5 as oracle) + delivery-variant correspondence + independent recomputation"),
+ "C04": ("Theorem C04_bounds_exact: in every stream of the encoder model max_block = min_block = requested block size (hence >= 16 and <= every non-final frame), and min/max frame size are attained by and bound every frame's size field. Tied by ENC/DLV with an oracle recomputing the four bounds from the frames of the implementation's bytes (every tail length class incl. 1..15).",
+         "Rocq proof of the accounting fold + oracle on emitted bytes"),
 }
 NOTE = ("Trusted: Coq 8.16.1 kernel, extraction with ExtrOcamlBasic only, OCaml driver, Rust harness, tools/*.py, "
         "and the hand-written model of the named source files, which is tied to /repo by differential testing "
